@@ -77,3 +77,16 @@ def classify_c12(how, ident, home_changed, target_exists, executed):
     if ident == 'PASS' and home_changed and target_exists:
         return 'KF-C12-ABS'
     return None
+
+
+def classify_c18(text, rc, out, err):
+    """KF-C18-NAMETOOLONG.  Predicate: the test case contains a word of more than 255 characters (longer than NAME_MAX) that is used as
+    a file name.  Defect model: the existence check (pathlib stat) raises OSError errno 36 "File name too long", which is not translated
+    and surfaces as INTERNAL_ERROR (exit 129) with that OSError in the traceback; nothing else is wrong."""
+    import re
+    if not is_known('KF-C18-NAMETOOLONG'):
+        return None
+    if rc == 129 and out == 'INTERNAL_ERROR\n' and 'File name too long' in err and 'OSError: [Errno 36]' in err \
+            and re.search(r'[^\s/]{256,}', text):
+        return 'KF-C18-NAMETOOLONG'
+    return None
